@@ -114,6 +114,12 @@ def check_replace(text, category, column, values):
         errs.append("items or row count changed")
         return errs
     i = a0.index(column)
+    distinct = len(set(x[i] for x in r0))
+    if distinct > len(values):
+        # alphabet exhausted yet the call returned normally: the returned mapping can only be injective by luck
+        if len(set(mapping.values())) != len(mapping) or len(mapping) != distinct:
+            return [f"returned normally with {distinct} distinct values for {len(values)} alphabet characters; mapping {mapping} is not injective"]
+        return errs
     want = {}
     for x in r0:
         if x[i] not in want:
